@@ -178,6 +178,7 @@ def take(cx, t, profile, source):
         if key in cx.seen:
             continue
         cx.seen.add(key)
+        cx.keep.add(t.path)
         ops, head = episode_ops(t.path, d.get("at"))
         hist = " · ".join(op_text(o) for o in ops[-12:]) if ops else None
         chk.violation(w, d.get("what"),
@@ -280,7 +281,7 @@ def main():
     chk = vlib.Check(PID, "model_checking")
     q = chk.quick
     cx = Ctx()
-    cx.chk, cx.seen = chk, set()
+    cx.chk, cx.seen, cx.keep = chk, set(), set()
     cx.bins = {"dev": vlib.build_harness("dev"), "opt": vlib.build_harness("opt")}
     default, cx.hmin, cx.hmax = advertised_hash_range()
     info = {p: json.loads(vlib.harness(b, ["tt", "info"])) for p, b in cx.bins.items()}
@@ -511,8 +512,8 @@ def main():
         if not isinstance(r, dict):
             continue
         take(cx, r["t"], r["profile"], r["kind"])
-        if not q and r["kind"] == "random" and not r["t"].viols(PID) and not r["t"].drifts(PID):
-            os.remove(r["t"].path)          # 8 MB each; traces with a report stay for the replay
+        if not q and r["kind"] == "random" and r["t"].path not in cx.keep and not r["t"].drifts(PID):
+            os.remove(r["t"].path)          # 8 MB each; traces named by a recorded violation or with drift stay
         for k, v in r["cnt"].items():
             tot[k] = tot.get(k, 0) + v
         events += r["st"]["events"]
